@@ -118,6 +118,11 @@ C01_NoGrantOnFailure(B, k) ==
 \* what is sent after the key exchange is readable with the secret the client chose
 C01_CipherKeyedBySecret(B, k) == Idx(H(B, k), IsGarbledTx) = {}
 
+\* C12 at connection level: the session service is asked about exactly the name (and id) the client claimed in Login Start,
+\* with this connection's secret -- whatever cookie was presented and discarded before
+C12_AsksAboutClaimedName(B, k) ==
+  \A i \in AuthCalls(B, k) : H(B, k)[i].c.who = "claimed" /\ H(B, k)[i].c.secretOk /\ H(B, k)[i].c.pubOk
+
 C01(B, k) == /\ C01_GrantOnlyVouched(B, k) /\ C01_PlayerIsVouched(B, k) /\ C01_AuthArgs(B, k)
              /\ C01_NoGrantOnFailure(B, k) /\ C01_CipherKeyedBySecret(B, k)
 
@@ -310,6 +315,7 @@ ClauseNames(p) ==
     [] p = "C04" -> {"C04_NoPanic","C04_EndsByItself","C04_BoundedAllocation","C04_BadFrameEndsSilently"}
     [] p = "C06" -> {"C06_Order","C06_NothingGarbled","C06_CookieRequestKeys","C06_SuccessAfterHonestResponse",
                      "C06_RoutingAfterClientInfo","C06_StatusExchange","C06_CompleteLogin","C06_DeviationSilent"}
+    [] p = "C12" -> {"C12_AsksAboutClaimedName"}
     [] p = "C10" -> {"C10_AuthCookieIssuedIff","C10_AuthCookieContents","C10_SessionCookie","C10_StoredCookieAccepted"}
     [] OTHER -> {}
 
@@ -317,6 +323,7 @@ Clause(n, B, k) ==
   CASE n = "C01_GrantOnlyVouched" -> C01_GrantOnlyVouched(B, k) [] n = "C01_PlayerIsVouched" -> C01_PlayerIsVouched(B, k)
     [] n = "C01_AuthArgs" -> C01_AuthArgs(B, k) [] n = "C01_NoGrantOnFailure" -> C01_NoGrantOnFailure(B, k)
     [] n = "C01_CipherKeyedBySecret" -> C01_CipherKeyedBySecret(B, k)
+    [] n = "C12_AsksAboutClaimedName" -> C12_AsksAboutClaimedName(B, k)
     [] n = "C02_FlagIffNoCookie" -> C02_FlagIffNoCookie(B, k) [] n = "C02_CookieAnswered" -> C02_CookieAnswered(B, k)
     [] n = "C02_VerdictRequired" -> C02_VerdictRequired(B, k) [] n = "C02_IdentityFromCookie" -> C02_IdentityFromCookie(B, k)
     [] n = "C03_ListsPassedOn" -> C03_ListsPassedOn(B, k) [] n = "C03_TransferIsChoice" -> C03_TransferIsChoice(B, k)
